@@ -25,7 +25,7 @@ type rowTags struct {
 }
 
 var (
-	reNoise  = regexp.MustCompile(`FromBigInt|FromUint64|FromInt64|BigInt|ToInt|BigEndian|IntPlusOne|UintSize|IntValueParser|FixedPoint|Fixedpoint`)
+	reNoise  = regexp.MustCompile(`Uint64RandomNumber|BigRandomNumber|FromBigInt|FromUint64|FromInt64|BigInt|ToInt|BigEndian|IntPlusOne|UintSize|IntValueParser|FixedPoint|Fixedpoint`)
 	reBound  = regexp.MustCompile(`M(?:in|ax)(Int|Uint)(\d+)`)
 	reBound0 = regexp.MustCompile(`M(?:in|ax)(?:Int|Uint)`)
 	reTag    = regexp.MustCompile(`(UFix|Fix|UInt|Uint|Int|Word)(\d*)`)
@@ -239,7 +239,7 @@ func rowCoherence(r *core.Run, rule, table string, rows []ast.Expr, info *types.
 }
 
 // switchRows checks every case clause of the switch statements in fd whose case expressions carry a numeric tag.
-func switchRows(r *core.Run, rule, table string, fd ast.Node, info *types.Info) map[string]bool {
+func switchRows(r *core.Run, rule, table string, fd ast.Node, info *types.Info, ignoreNative ...bool) map[string]bool {
 	seen := map[string]bool{}
 	ast.Inspect(fd, func(n ast.Node) bool {
 		cc, ok := n.(*ast.CaseClause)
@@ -257,8 +257,16 @@ func switchRows(r *core.Run, rule, table string, fd ast.Node, info *types.Info) 
 		if len(ct.full) != 1 {
 			return true // not a one-type-per-arm table (or a multi-type arm)
 		}
-		tag := ct.tag()
+		tag := ""
+		for k := range ct.full {
+			tag = k
+		}
 		t := tagsOf(cc, info)
+		if len(ignoreNative) > 0 && ignoreNative[0] {
+			// widening conversions to a common native type are legitimate in this table
+			t.widths = map[int]token.Pos{}
+			t.signed = map[bool]token.Pos{}
+		}
 		seen[tag] = true
 		why := t.incoherent()
 		r.Check(why == "", rule, fmt.Sprintf("%s[case %s]", table, tag), cc.Pos(), "arm uses only "+tag+"'s constructors, bounds and widths", why)
